@@ -6,7 +6,7 @@ CONSTANTS
   WalTxs = 3
   StreamRenameFirst = TRUE
   SnapRenameFirst = TRUE
-  RestoreRenameFirst = FALSE
+  RestoreRenameFirst = TRUE
   PagesBeforeTrunc = TRUE
   CkptWalLast = TRUE
   RollbackRmLast = TRUE
